@@ -613,6 +613,10 @@ def directed():
     # fill in independent mode (dispatcher computes NC_EINDEP but does not return it outside safe mode)
     h = Hist(2, 1, name='fill-indep-misuse')
     h.simple('begin_indep'); h.indep_put(1, 'R', ('vara', 5, 1)); h.fill('R', [2, 2]); h.simple('end_indep'); h.close(); hs.append(h)
+    # record 0 of the same variable posted later: req_off equals the queued entry's varp->begin (`<=` keeps post order)
+    h = Hist(2, 1, name='sort-equal-begin')
+    a = h.post(1, 'R', ('vara', 5, 1)); b = h.post(1, 'R', ('vara', 0, 1)); c = h.post(1, 'F', ('vara', 0, 1)); d = h.post(1, 'F', ('vara', 1, 1))
+    h.wait_all([[], [c]]); h.wait_all([[], [a]]); h.wait_all(['all', 'all']); h.close(); hs.append(h)
     # every rank passes an invalid start: all take the NC_REQ_ZERO path (no Allreduce, no hang, no change)
     h = Hist(2, 1, name='all-invalid')
     h.coll_put('R', [('vara', 2, 1), None]); h.coll_put('R', [('bad', 7), ('bad', 8)]); h.coll_put('R', [None, ('vara', 4, 1)]); h.close(); hs.append(h)
